@@ -177,6 +177,6 @@ example : ∃ s, (pool 2).run (pool 2).init
      .wEmpty 7, .finish 0, .wIdle 7 0, .wIdle 7 1, .wReturn 7, .get 0 42, .submit 2, .setStop,
      .submitRejected, .pop 1, .exitW 0, .exec 1 2 7, .finish 1, .exitW 1, .join, .get 1 (-5)] = some s ∧
     s.joined = true ∧ s.waiter 7 = .returned 2 ∧ s.execCount 2 = 1 := by
-  simp [Sys.run, pool, step, init, upd_apply, allExited]
+  exact ⟨_, rfl, rfl, rfl, rfl⟩
 
 end TfelVerif.C29.Props
